@@ -1007,7 +1007,8 @@ static int parse_single_cert(psPool_t *pool, const unsigned char **pp,
             {
                 cert->parseStatus = PS_X509_UNSUPPORTED_ECC_CURVE;
             }
-            func_rc = PS_PARSE_FAIL;
+            /* Running out of memory is not a defect of the certificate. */
+            func_rc = (rc == PS_MEM_FAIL) ? PS_MEM_FAIL : PS_PARSE_FAIL;
             goto out;
         }
         /* keysize will be the size of the public ecc key (2 * privateLen) */
